@@ -5,6 +5,9 @@ package main
 import (
 	"fmt"
 	"regexp/syntax"
+	"strings"
+
+	"golang.org/x/tools/go/ssa"
 )
 
 func init() {
@@ -131,5 +134,61 @@ func init() {
 			c20DigitSet().ids[r[i].ID] = true
 		}
 		return Str{r}
+	}
+}
+
+// ---- verifStubFunc(target, model): for the rest of the path, calls of the function named target
+// ("import/path.Func") run the Go function named model instead (a harness-provided model of code that is
+// outside the claim, e.g. a constructor that reads files and starts network workers). Natively a no-op:
+// the replay runs the real function.
+
+type stubTable struct{ m map[*ssa.Function]*ssa.Function }
+
+func stubRedirect(fn *ssa.Function) *ssa.Function {
+	t, ok := E.ghost["verif.stubs"].(*stubTable)
+	if !ok {
+		return nil
+	}
+	return t.m[fn]
+}
+
+func lookupFuncByName(full string) *ssa.Function {
+	i := strings.LastIndexByte(full, '.')
+	if i < 0 {
+		E.inconclusive("verifStubFunc: bad function name " + full)
+	}
+	p := E.prog.ImportedPackage(full[:i])
+	if p == nil {
+		E.inconclusive("verifStubFunc: package not loaded: " + full[:i])
+	}
+	f := p.Func(full[i+1:])
+	if f == nil {
+		E.inconclusive("verifStubFunc: no function " + full)
+	}
+	return f
+}
+
+func init() {
+	verifFuncs["verifStubFunc"] = func(fr *frame, a []value) value {
+		target, model := lookupFuncByName(mustConcStr(a[0])), lookupFuncByName(mustConcStr(a[1]))
+		t, ok := E.ghost["verif.stubs"].(*stubTable)
+		if !ok {
+			t = &stubTable{m: map[*ssa.Function]*ssa.Function{}}
+			E.ghost["verif.stubs"] = t
+		}
+		t.m[target] = model
+		E.StubsUsed["model:"+mustConcStr(a[0])] = true
+		return nil
+	}
+}
+
+// ---- package flag: command-line flags keep their default values (package main's initializer defines flags)
+func init() {
+	flagVar := func(fr *frame, args []value) value {
+		cell := args[1] // (name, default, usage)
+		return &cell
+	}
+	for _, k := range []string{"String", "Int", "Bool", "Int64", "Uint", "Uint64", "Float64", "Duration"} {
+		reg("flag."+k, flagVar)
 	}
 }
